@@ -244,6 +244,10 @@ func (sess *session) Attach(ctx context.Context, fid, afid Fid,
 
 		aref, err = sess.getRef(afid)
 		if err != nil || aref.File == nil {
+			if err == nil {
+				// afid names an ordinary fid: getRef returned it locked
+				aref.Unlock()
+			}
 			return Qid{}, ErrUnknownfid
 		}
 		defer aref.Unlock()
